@@ -134,9 +134,29 @@ def gen_query(rnd, st, v=None):
     provs = sorted(st['rp'])
     classes = [k for k in CLASSES if k != 'CUSTOM_RC1' or 'CUSTOM_RC1' in st['classes']]
 
+    def boundary_amounts(k):
+        """Amounts at the edges of what some inventory of class k admits."""
+        out = []
+        for p, invs in st['inv'].items():
+            i = invs.get(k)
+            if not i:
+                continue
+            used = sum(d.get(p, {}).get(k, 0) for d in st['alloc'].values())
+            cap = (i['total'] - i['reserved']) * i['num'] // i['den']
+            room = cap - used
+            for a in (room, room + 1, i['max_unit'], i['max_unit'] + 1, i['min_unit'], i['min_unit'] - 1,
+                      i['step_size'], i['step_size'] + 1, 2 * i['step_size']):
+                if 1 <= a <= 64:
+                    out.append(a)
+        return out
+
     def res(nmax):
         ks = rnd.sample(classes, rnd.randint(1, nmax))
-        return {k: rnd.choice([1, 1, 1, 2, 2, 3, 4]) for k in ks}
+        d = {}
+        for k in ks:
+            b = boundary_amounts(k) if rnd.random() < 0.3 else []
+            d[k] = rnd.choice(b) if b else rnd.choice([1, 1, 1, 2, 2, 3, 4])
+        return d
 
     def filters(g, suffixed):
         if v >= 17 and rnd.random() < 0.2:
@@ -326,6 +346,19 @@ def gen_filter(rnd, st, v=None):
     if v >= 4 and rnd.random() < 0.45:
         classes = [k for k in CLASSES if k != 'CUSTOM_RC1' or 'CUSTOM_RC1' in st['classes']]
         f['resources'] = {k: rnd.choice([1, 2, 3, 4, 8]) for k in rnd.sample(classes, rnd.randint(1, 2))}
+        if rnd.random() < 0.4:
+            # an amount at the edge of what one of the inventories admits
+            k = rnd.choice(sorted(f['resources']))
+            edges = []
+            for p, invs in st['inv'].items():
+                i = invs.get(k)
+                if i:
+                    used = sum(d.get(p, {}).get(k, 0) for d in st['alloc'].values())
+                    room = (i['total'] - i['reserved']) * i['num'] // i['den'] - used
+                    edges += [a for a in (room, room + 1, i['max_unit'], i['max_unit'] + 1, i['min_unit'] - 1,
+                                          i['step_size'] + 1) if 1 <= a <= 64]
+            if edges:
+                f['resources'][k] = rnd.choice(edges)
     # a conjunction of positive filters each of which matches while no provider satisfies both
     if v >= 18 and rnd.random() < 0.1:
         pairs = []
